@@ -45,3 +45,6 @@ def run(ctx):
     V.v17_quotient_bookkeeping(ctx)
     ctx.floor("V18", 1)
     ctx.floor("V17", 2)
+    from ..engines import mapplumbing as M2B
+    M2B.m2b_reverse_rule_children(ctx)
+    ctx.floor("M2", 2)
